@@ -111,7 +111,7 @@ func hostileEnvelope(r *rand.Rand) (*remote.Envelope, []string) {
 			defects = append(defects, "nil-target-slot")
 			continue
 		}
-		env.Targets = append(env.Targets, actor.NewPID("node", c16TargetIDs[r.Intn(len(c16TargetIDs))]))
+		env.Targets = append(env.Targets, actor.NewPID("local", c16TargetIDs[r.Intn(len(c16TargetIDs))]))
 	}
 	for i := 0; i < nS; i++ {
 		if r.Intn(25) == 0 {
@@ -293,7 +293,7 @@ func c16Struct(c *caseCtx) (res caseResult) {
 		res.inconclusive("engine: %v", err)
 		return
 	}
-	lg := registerTargets(e, "node", c16TargetIDs)
+	lg := registerTargets(e, "local", c16TargetIDs)
 	env, defects := hostileEnvelope(c.rng)
 	var rerr error
 	if p := catchPanic(func() { rerr = readerReceive(e, &feedStream{envs: []*remote.Envelope{env}}) }); p != "" {
@@ -323,7 +323,7 @@ func validEnvelopeBytes(r *rand.Rand) []byte {
 	env := &remote.Envelope{}
 	nT := 1 + r.Intn(3)
 	for i := 0; i < nT; i++ {
-		env.Targets = append(env.Targets, actor.NewPID("node", c16TargetIDs[r.Intn(len(c16TargetIDs))]))
+		env.Targets = append(env.Targets, actor.NewPID("local", c16TargetIDs[r.Intn(len(c16TargetIDs))]))
 	}
 	nS := r.Intn(3)
 	for i := 0; i < nS; i++ {
@@ -393,7 +393,7 @@ func c16Bytes(c *caseCtx) (res caseResult) {
 		res.inconclusive("engine: %v", err)
 		return
 	}
-	lg := registerTargets(e, "node", c16TargetIDs)
+	lg := registerTargets(e, "local", c16TargetIDs)
 	b, how := mutateBytes(c.rng, validEnvelopeBytes(c.rng))
 	env := &remote.Envelope{}
 	var uerr error
